@@ -159,6 +159,8 @@ class Loop(Node):
     @repetition_definition.setter
     def repetition_definition(self, new_definition: Union[int, VolatileRepetitionCount]):
         self._repetition_definition = new_definition
+        if self.parent:
+            self.parent._invalidate_duration()
 
     @property
     def repetition_count(self) -> int:
@@ -171,6 +173,8 @@ class Loop(Node):
         if abs(new_repetition - val) > 1e-10:
             raise ValueError('Repetition count was not an integer')
         self._repetition_definition = new_repetition
+        if self.parent:
+            self.parent._invalidate_duration()
 
     def unroll(self) -> None:
         if self.is_leaf():
